@@ -27,7 +27,7 @@ def case(draw, optimizer, tier):
         optimizer,
         task=strategies.task_spec(minmax=("min", "max")),
         config=strategies.config_spec(optimizer, max_cycles=(3, 6 if tier == "quick" else 15), min_cycles=3),
-        modes=("serial",)))
+        modes=("serial",), warmup=0.15))
     spec["idx_frac"] = draw(st.floats(0, 1, allow_nan=False))
     spec["iters"] = draw(st.one_of(st.none(), st.lists(st.integers(0, 40), max_size=8)))
     return spec
